@@ -1,4 +1,4 @@
-from checks import mibcompile
+from checks import mibcompile, oidindex
 
 RULE_MC = ('scenario = terminal state of MibCompile.tla exported by TLC (request x lazily chosen answers of every '
            'component x options); non-trivial = at least one component answered with a failure / fresh / borrow; '
@@ -6,3 +6,6 @@ RULE_MC = ('scenario = terminal state of MibCompile.tla exported by TLC (request
 REGISTRY = {}
 for _p in ('C07', 'C08', 'C09', 'C10', 'C19'):
     REGISTRY[_p] = {'run': mibcompile.run, 'replay': mibcompile.replay, 'finish': {'rule': RULE_MC, 'exhaustive': True}}
+
+REGISTRY['C18'] = {'run': oidindex.run, 'replay': oidindex.replay, 'finish': {
+    'rule': 'history = sequence of genIndex() calls exported from the terminal states of OidIndex.tla (every module summary over an OID universe with digit-sharing arcs); non-trivial = at least two OIDs involved; distinct by history', 'exhaustive': True}}
